@@ -1,14 +1,17 @@
 #!/bin/sh
-# tools/replay_seeds.sh  -- apply every stored seeded change to /repo (one at a time), run all quick checks, undo;
-# every change must be reported by at least one check (the superseded one is skipped when it no longer applies)
-[ -z "$(git -C /repo status --porcelain)" ] || { echo "/repo not clean"; exit 3; }
-miss=0
+# tools/replay_seeds.sh  -- apply every stored seeded change to the tree under test (ZK_REPO, default /repo; one at a time), run all
+# quick checks, undo; every change must be reported by at least one check, and "own" says whether the check of the property the
+# change was written for is among them (the superseded one is skipped when it no longer applies)
+R=${ZK_REPO:-/repo}; export ZK_REPO=$R
+[ -z "$(git -C $R status --porcelain)" ] || { echo "$R not clean"; exit 3; }
+miss=0; notown=0
 for d in /verif/seeded/*/; do
-  n=$(basename "$d")
-  git -C /repo apply "$d/patch.diff" 2>/dev/null || { echo "SKIP   $n (does not apply)"; continue; }
+  n=$(basename "$d"); own=$(echo "$n" | cut -c1-3)
+  git -C $R apply "$d/patch.diff" 2>/dev/null || { echo "SKIP   $n (does not apply)"; continue; }
   out=$(/verif/check all 2>&1 | grep -E "^C[0-9]+:.* [1-9][0-9]* violations" | cut -d: -f1 | tr '\n' ' ')
-  git -C /repo checkout -- .
-  if [ -z "$out" ]; then miss=$((miss+1)); echo "MISSED $n"; else echo "caught $n  [$out]"; fi
+  git -C $R checkout -- .
+  if [ -z "$out" ]; then miss=$((miss+1)); echo "MISSED $n"
+  else case " $out" in *" $own "*) echo "caught $n  [$out] own";; *) notown=$((notown+1)); echo "caught $n  [$out] NOT-BY-OWN";; esac; fi
 done
-echo "missed: $miss"
+echo "missed: $miss; reported but not by the property's own check: $notown"
 [ "$miss" -eq 0 ]
